@@ -1537,7 +1537,9 @@ class AgProtocol(utils.EventEmitter):
         )
         self.hf_indicators = collections.OrderedDict(
             {
-                indicator: HfIndicatorState(indicator=indicator)
+                indicator: HfIndicatorState(
+                    indicator=indicator, supported=True, enabled=True
+                )
                 for indicator in self.supported_hf_indicators.intersection(
                     peer_supported_indicators
                 )
@@ -1561,8 +1563,10 @@ class AgProtocol(utils.EventEmitter):
             self.send_error()
             return
 
-        for indicator in self.hf_indicators:
-            self.send_response(f'+BIND: {indicator.value},1')
+        for indicator, state in self.hf_indicators.items():
+            self.send_response(
+                f'+BIND: {indicator.value},{1 if state.enabled else 0}'
+            )
 
         self.send_ok()
 
